@@ -8,7 +8,7 @@ namespace RqModel.Rewrite
 (`u` = the call stands inside an ORDER BY term):
 date/time/datetime/julianday/unixepoch with the time value absent or `now`;
 strftime with only a format, or with `now` as time value; timediff with `now`;
-random() outside ORDER BY; randomblob(<number literal>) outside ORDER BY. -/
+random() outside ORDER BY; randomblob(<signed number literal the rewriter pins>) outside ORDER BY. -/
 def nondetCall (u : Bool) (name : String) (args : Nodes) : Bool :=
   match classify name with
   | .five =>
@@ -25,10 +25,7 @@ def nondetCall (u : Bool) (name : String) (args : Nodes) : Bool :=
     | .cons a (.cons b _) => isNow a || isNow b
     | _ => false
   | .random => !u
-  | .randomblob =>
-    !u && (match args with
-      | .cons (.lit "number" v) .nil => (parseIntLit v).isSome
-      | _ => false)
+  | .randomblob => !u && (blobLenOfArgs args).isSome
   | .other => false
 
 mutual
@@ -173,5 +170,57 @@ theorem isNow_walk (c : Cfg) (st : St) (n : Node) : isNow (walk c st n).1 = isNo
   | ord _ => simp [walk, isNow]
   | ret _ => simp [walk, isNow]
   | other _ _ => simp [walk, isNow]
+
+/-! ### the literal argument of randomblob survives walking -/
+
+theorem litNumber_walk (c : Cfg) (st : St) (x : Node) : litNumber (walk c st x).1 = litNumber x := by
+  cases x with
+  | call name args extra =>
+    rw [walk]
+    cases hv : visitCall c st name args with
+    | keep tr st1 => simp [litNumber]
+    | replace m st1 =>
+      simp only
+      rcases visitCall_replace_node hv with ⟨w, hw⟩ | ⟨w, hw⟩ <;> simp [hw, litNumber]
+  | lit k v => simp [walk]
+  | ident _ => simp [walk, litNumber]
+  | ord _ => simp [walk, litNumber]
+  | ret _ => simp [walk, litNumber]
+  | other _ _ => simp [walk, litNumber]
+
+theorem signedLit_walk (c : Cfg) (st : St) (x : Node) : signedLit (walk c st x).1 = signedLit x := by
+  cases x with
+  | call name args extra =>
+    rw [walk]
+    cases hv : visitCall c st name args with
+    | keep tr st1 => simp [signedLit]
+    | replace m st1 =>
+      simp only
+      rcases visitCall_replace_node hv with ⟨w, hw⟩ | ⟨w, hw⟩ <;> simp [hw, signedLit]
+  | lit k v => simp [walk]
+  | ident _ => simp [walk, signedLit]
+  | ord _ => simp [walk, signedLit]
+  | ret _ => simp [walk, signedLit]
+  | other tag kids =>
+    rw [walk]
+    cases kids with
+    | nil => simp [walkList_nil, signedLit]
+    | cons k ks =>
+      cases ks with
+      | nil => simp [walkList_cons, walkList_nil, signedLit, litNumber_walk]
+      | cons k2 ks2 => simp [walkList_cons, signedLit]
+
+theorem blobArg_walkList (c : Cfg) (st : St) (args : Nodes) :
+    blobArg (walkList c st args).1 = blobArg args := by
+  cases args with
+  | nil => simp [walkList_nil, blobArg]
+  | cons x r =>
+    cases r with
+    | nil => simp [walkList_cons, walkList_nil, blobArg, signedLit_walk]
+    | cons y r2 => simp [walkList_cons, blobArg]
+
+theorem blobLenOfArgs_walkList (c : Cfg) (st : St) (args : Nodes) :
+    blobLenOfArgs (walkList c st args).1 = blobLenOfArgs args := by
+  simp [blobLenOfArgs, blobArg_walkList]
 
 end RqModel.Rewrite
